@@ -63,6 +63,14 @@ def oracle(c):
             if (ob[0] == "ok") != want or (want and ob[1] != pg):
                 return "op %d: grow(%d) at %d pages (bound %d) -> %s" % (j, op[1], pg, bound, ob)
             if want: pg += op[1]
+            # "exposes new pages as zero": the first byte of the new region as the host reads it right after the grow
+            fr = (c.get("fresh") or [])
+            if want and op[1] > 0 and j < len(fr) and fr[j] not in (0, -1) and not (c["engine"] == "compiler" and pg == 65536):
+                return "op %d: grow(%d) to %d pages exposed a non-zero byte (%d) at the start of the new region" % (j, op[1], pg, fr[j])
+            # a custom allocator is told about every size change: what it committed last is the memory's size
+            cm = (c.get("committed") or [])
+            if cf.get("alloc") and j < len(cm) and cm[j] != (pg << 16):
+                return "op %d: after grow(%d) the memory has %d bytes but the custom allocator was last asked for %d" % (j, op[1], pg << 16, cm[j])
         elif k in ("pages", "gsize"):
             if ob != ["ok", pg]:
                 return "op %d: %s returned %s at %d pages" % (j, k, ob, pg)
